@@ -17,4 +17,11 @@ def run(P, R, L):
              "current passes the false edge of `entry sequence > snapshot sequence`; the lookup key of DB::get and the "
              "iterator's snapshot derive from the sequence captured under the mutex")
     K.grd3_sequence_filter(P, R, L)
+    R.clause("GRD-2", "compaction keeps or drops the entries of one batch consistently: a tombstone is dropped only when nothing older can "
+             "resurface (at or below the smallest snapshot, and no deeper level holds the key) — otherwise a later reader sees the put "
+             "of a batch but not its delete")
+    K.grd2_retention(P, R, L)
+    K.ord7_smallest_snapshot(P, R, L)
+    R.clause("GRD-10", "user-key vs file-bound comparisons (is_base_level_for_key and the overlap tests) treat [smallest, largest] as closed")
+    K.grd10_closed_intervals(P, R, L)
     R.not_decided += ["sequence arithmetic (prev+1 .. prev+len)", "rotation in the middle of a batch"]
